@@ -260,7 +260,12 @@ def _havoc_modified(interp, c, bound):
             raise Unsupported('contract %s modifies %r, but the caller passes a concrete list: declare the '
                               'caller\'s local in its contract (locals=dict(name=MListOf(...)))' % (c.qname, path))
         else:
-            raise Unsupported('modifies %r of %s: neither a symbolic mutable list nor an iterator' % (path, c.qname))
+            # symbolic maps (and objects that hold them): the mutable state reachable from the named
+            # parameter / field is forgotten; the clauses relate it to `old`
+            from . import models
+            if not models.havoc_mutable(interp, obj, '%s.%s' % (tag, c.qname.rpartition(':')[2])):
+                raise Unsupported('modifies %r of %s: nothing to havoc (neither a symbolic mutable list, an '
+                                  'iterator nor a symbolic map)' % (path, c.qname))
 
 
 def _make_exc(interp, exc_cls, spec, env):
@@ -302,6 +307,7 @@ class FunctionReport:
         self.slow_queries = []
         self.uncovered = []        # 'line N: <source>' of return/raise statements no feasible path reached
         self.deps_sha = None
+        self.dep_shas = {}         # qualified name -> sha256 of the source text (the function itself under '')
 
 
 def verify_function(reg, c, budget_paths=MAX_PATHS):
@@ -309,6 +315,10 @@ def verify_function(reg, c, budget_paths=MAX_PATHS):
     rep = FunctionReport(c.qname)
     t0 = time.time()
     func = c.func
+    reg.current_props = tuple(c.props)
+    mod = getattr(c, 'module', None)
+    scope = [getattr(mod, 'prop', None)] + sorted(getattr(mod, 'uses', ())) + list(c.props)
+    reg.current_scope = tuple(dict.fromkeys(x for x in scope if x))
     info = frontend.funcinfo_of(func)
     rep.source = '%s:%d' % (info.filename, info.node.lineno)
     rep.sha = info.source_sha
@@ -393,15 +403,23 @@ def _deps_sha(reg, c, rep):
     import hashlib
     import importlib
     parts = [rep.sha or '']
+    rep.dep_shas = {'': rep.sha or ''}
     for q in sorted(rep.inlined):
-        modname, _, path = q.partition(':')
-        try:
-            obj, _owner = frontend.resolve_qualified(q)
-            f = frontend.raw_function(obj)
-            parts.append(q + '=' + (frontend.funcinfo_of(f).source_sha or ''))
-        except Exception:
-            parts.append(q + '=?')
+        sha = source_sha_of(q)
+        rep.dep_shas[q] = sha
+        parts.append(q + '=' + sha)
     return hashlib.sha256('\n'.join(parts).encode()).hexdigest()
+
+
+def source_sha_of(q):
+    """sha256 of the current source text of the repository function with this qualified name ('?' if it
+    cannot be located any more)"""
+    try:
+        obj, _owner = frontend.resolve_qualified(q)
+        f = frontend.raw_function(obj)
+        return frontend.funcinfo_of(f).source_sha or ''
+    except Exception:
+        return '?'
 
 
 def _cleanup(st):
@@ -427,6 +445,11 @@ def _run_path(interp, reg, c, func, rep):
     st = interp.st
     args, ghosts = make_inputs(interp, c)
     reg.ghost_env = dict(ghosts)
+    # ghost (monitor) variables declared in `modifies`: the function starts in an arbitrary monitor state
+    from .api import Dependent as _Dependent
+    for key, ty in (c.modifies.items() if isinstance(c.modifies, dict) else ()):
+        if key.startswith('ghost:') and isinstance(ty, Ty) and not isinstance(ty, _Dependent):
+            st.ghost[key[6:]] = ty.make(interp, key)
     if c.setup is not None:
         extra = c.setup(interp, args, ghosts)
         if extra:
@@ -442,6 +465,25 @@ def _run_path(interp, reg, c, func, rep):
         old = _call_pred(interp, c.old, env)
         env = dict(env, old=old)      # `when` conditions of exceptional outcomes may mention the pre-state
         reg.ghost_env['old'] = old        # visible to loop invariants
+    # `when` conditions of exceptional outcomes are predicates of the PRE-state: evaluated before the call
+    # (the function may mutate its arguments)
+    when_values = {}
+    for exc_cls, spec in c.raises.items():
+        if spec.get('when') is not None:
+            when_values[exc_cls] = interp.truth(_call_pred(interp, spec['when'], env))
+    # frame: symbolic maps reachable from parameters that the contract does not list in `modifies`
+    # must be unchanged on every outcome
+    from . import models as _models
+    frame_snap = []
+    mods = tuple(c.modifies or ())
+    for pname, pval in args.items():
+        if pname in mods:
+            continue
+        for path_, m_ in _models.reachable_smaps(pval):
+            full = (pname + path_).replace('?', '')
+            if any(full == m or full.startswith(m + '.') for m in mods):
+                continue
+            frame_snap.append((pname + path_, m_, m_.has, m_.val))
     # positional order of the real function
     code = func.__code__
     names = list(code.co_varnames[:code.co_argcount + code.co_kwonlyargcount])
@@ -457,6 +499,7 @@ def _run_path(interp, reg, c, func, rep):
     pos = [args[n] for n in names[:code.co_argcount]]
     kw = {n: args[n] for n in names[code.co_argcount:] if n in args}
     outcome = None
+    ghost0 = dict(st.ghost)
     info = frontend.funcinfo_of(func)
     mlists_before = _mutable_lists_of(args)
     yseq = None
@@ -483,13 +526,16 @@ def _run_path(interp, reg, c, func, rep):
         now = mlists_after.get(path)
         if (now is None or now[0] is not m or now[1] != version) and path not in c.modifies:
             st.oblige('%s : frame[%s is not modified]' % (fname, path), False, {'kind': 'frame'})
+    for (where, m_, has0, val0) in frame_snap:
+        same = True if (m_.has is has0 and m_.val is val0) else wrap(z3.And(m_.has == has0, m_.val == val0))
+        st.oblige('%s : frame[%s unchanged]' % (fname, where), same, {'kind': 'frame'})
     if outcome[0] == 'return':
         env2 = _clause_env(args, ghosts, {'result': outcome[1], 'old': old, 'trace': st.trace, 'ghost': st.ghost})
         # a declared deterministic `when` exception must have been raised
         for exc_cls, spec in c.raises.items():
             when = spec.get('when')
             if when is not None:
-                w = interp.truth(_call_pred(interp, when, env))
+                w = when_values[exc_cls]
                 st.oblige('%s : raises[%s] when-condition implies raise' % (fname, _exc_name(exc_cls)),
                           interp.not_(w), {'kind': 'exc-post'})
         for name, clause in c.ensures.items():
@@ -507,8 +553,8 @@ def _run_path(interp, reg, c, func, rep):
                 env2 = _clause_env(args, ghosts, {'exc': exc, 'old': old, 'trace': st.trace, 'ghost': st.ghost})
                 when = spec.get('when')
                 if when is not None:
-                    _oblige_clause(interp, '%s : raises[%s] only when' % (fname, _exc_name(exc_cls)),
-                                   when, env, {'kind': 'exc-post'})
+                    st.oblige('%s : raises[%s] only when' % (fname, _exc_name(exc_cls)), when_values[exc_cls],
+                              {'kind': 'exc-post'})
                 st.oblige('%s : raises[%s] is a declared outcome' % (fname, _exc_name(exc_cls)), True,
                           {'kind': 'exc-post'})
                 ens = spec.get('ensures')
@@ -529,6 +575,22 @@ def _run_path(interp, reg, c, func, rep):
                                                                      + list(allowed or ()))),
                           isinstance(exc, tuple(allowed)) if allowed else False,
                           {'kind': 'raises-only', 'exception': repr(exc)})
+    # frame of the ghost (monitor) state: variables not declared in `modifies` are unchanged
+    if isinstance(c.modifies, dict):
+        for key in sorted(k for k in set(ghost0) | set(st.ghost) if isinstance(k, str)):
+            if ('ghost:' + key) in c.modifies:
+                continue
+            if key.startswith('__'):
+                continue        # bookkeeping of the engine's own models (caches of shared pieces, axioms added), not monitor state
+            v0, v1 = ghost0.get(key, _MISSING), st.ghost.get(key, _MISSING)
+            if v0 is v1:
+                continue
+            if isinstance(v0, (int, bool, str, SInt, SBool)) and isinstance(v1, (int, bool, str, SInt, SBool)) \
+                    or (hasattr(v0, 't') and hasattr(v1, 't')):
+                same = interp.eq(v0, v1)
+            else:
+                same = False
+            st.oblige('%s : frame[ghost %s unchanged]' % (fname, key), same, {'kind': 'frame'})
     # vacuity guard: the path must be satisfiable, otherwise its obligations say nothing
     if st.check() == z3.unsat:
         st.obligations[:] = [o for o in st.obligations if o[3].get('kind') in ('callee-pre', 'loop-entry')]
@@ -536,6 +598,9 @@ def _run_path(interp, reg, c, func, rep):
     if c.raises_only is not None and outcome[0] == 'return':
         st.oblige('%s : raises_only(%s)' % (fname, ', '.join(_exc_name(e) for e in list(c.raises) + list(c.may_raise)
                                                             + list(c.raises_only))), True, {'kind': 'raises-only'})
+
+
+_MISSING = object()
 
 
 def _mutable_lists_of(args):
